@@ -234,6 +234,11 @@ pub fn run(args: &[String]) {
     probes.push("<pre>\n\n\nfn main() {}\n</pre>".into());
     probes.push("<pre><x-foo></x-foo>\nx</pre><p>\nkept</p>".into());
     probes.push("<pre><code class=\"language-rust\">\n\nx</code></pre>".into());
+    // the doubled newline belongs to the FIRST child of pre, whatever follows it (element siblings, several text runs)
+    probes.push("<pre>\n\nfn main() {}\n<b>done</b></pre>".into());
+    probes.push("<pre>\n\nx<b>y</b>\nz</pre>".into());
+    probes.push("<pre><b>a</b>\nx</pre>".into());
+    probes.push("<pre>\n\n<b>a</b>x</pre>".into());
     probes.push("<x-foo><x-foo><mx-reply>q</mx-reply></x-foo>r</x-foo>".into());
     for p in &probes {
         for c in CONFIGS {
